@@ -358,3 +358,56 @@ def pieces(data, lens):
     for l in lens:
         out.append(data[p:p + l]); p += l
     return out
+
+
+# ---------------------------------------------------------------- extraction cross-check (thorough tier)
+def coq_list(b):
+    return '[' + '; '.join(str(x) for x in b) + ']'
+
+def extraction_crosscheck(ck, lines, limit=24):
+    """Evaluate a sample of decode cases inside Coq (vm_compute on the Gallina model) and compare with what the
+    extracted OCaml runner printed for the same case lines.  Returns (n_checked, ok)."""
+    import re
+    picked = []
+    for l in lines:
+        op = l.split(' ')[0]
+        if op in ('lzma_dec', 'lzma2_dec', 'xz_dec') and len(l) < 500 and 'std:' not in l:
+            picked.append(l)
+        if len(picked) >= limit: break
+    if not picked: return (0, True)
+    outs = run_model(picked)
+    defs = []
+    for i, (l, o) in enumerate(zip(picked, outs)):
+        kv = dict(t.split('=', 1) for t in l.split(' ')[1:] if '=' in t)
+        r = parse(o)
+        def nl(s): return '[]' if s in ('all', '') else '[' + '; '.join(s.split(',')) + ']'
+        def on(s): return 'None' if s == 'none' else '(Some %s)' % s
+        env = '(mkEnv %s %s %s %s %s)' % (nl(kv.get('rd', 'all')), on(kv.get('rfail', 'none')), nl(kv.get('wr', 'all')), on(kv.get('wfail', 'none')), 'true' if kv.get('ffail', '0') == '1' else 'false')
+        data = coq_list(unhx(kv.get('in', '-')))
+        op = l.split(' ')[0]
+        if op == 'lzma_dec':
+            o_ = kv.get('opt', 'rfh').split(':')
+            us = 'ReadFromHeader' if o_[0] == 'rfh' else '(%s %s)' % ('ReadHeaderButUseProvided' if o_[0] == 'rhp' else 'UseProvided', on(o_[1]))
+            call = '(api_lzma_dec (mkOptions %s %s false) %s %s)' % (us, on(kv.get('mem', 'none')), env, data)
+        elif op == 'lzma2_dec':
+            call = '(api_lzma2_dec %s %s)' % (env, data)
+        else:
+            call = '(api_xz_dec %s %s)' % (env, data)
+        v = {'ok': 0, 'err': 1, 'panic': 2}[r['verdict']]
+        defs.append('Definition c%d := result_agrees %s %d %s %s.' % (i, call, v, coq_list(unhx(r.get('out', '-'))), r.get('pos', '0')))
+    src = 'From LZ Require Import Base.Prelude Model.Lzma Extract.Api.\n' + '\n'.join(defs) + \
+          '\nEval vm_compute in (forallb (fun b : bool => b) [%s]).\n' % '; '.join('c%d' % i for i in range(len(defs)))
+    tmpd = tempfile.mkdtemp(prefix='lzx_', dir=os.path.join(BUILD, 'tmp'))
+    try:
+        f = os.path.join(tmpd, 'cases.v')
+        open(f, 'w').write(src)
+        p = subprocess.run('ulimit -s unlimited; timeout 900 coqc -q -Q %s LZ -Q %s X %s' % (os.path.join(ROOT, 'coq'), tmpd, f), shell=True, stdout=subprocess.PIPE, stderr=subprocess.STDOUT)
+        out = p.stdout.decode()
+        ok = p.returncode == 0 and re.search(r'=\s*true', out) is not None
+        ck.stats['extraction_crosscheck_cases'] = len(defs)
+        ck.stats['extraction_crosscheck_ok'] = bool(ok)
+        if not ok:
+            ck.violation('correspondence', 'extracted OCaml runner and vm_compute evaluation of the Coq model disagree (or coqc failed): ' + out[-300:], {'case': picked})
+        return (len(defs), ok)
+    finally:
+        shutil.rmtree(tmpd, ignore_errors=True)
